@@ -347,6 +347,16 @@ def run(res, tier):
     res.rule("C11.2 parent/child/child-code/upper-bound shifts use the class's Dim; no literal-dimension shift or mask of an index outside ordering classes and 3-D kernels")
     codecs(facts, res)
     shift_width(facts, res)
+    # the width of the arithmetic the index algebra is evaluated in: no 32-bit shift by a run-time level inside the ordering classes (rule of C15.4)
+    import c15
+    sub = tbf.Result("C15")
+    c15.shift_width(facts, sub)
+    k = 0
+    for v in sub.violations:
+        if "/spacial/" in v["file"]:
+            k += 1
+            res.violation("C11.2.shift-type", v["file"], v["function"], v["key"], v["line"], v["msg"] + " - indices of deep levels are no longer in bijection with the grid coordinates")
+    res.instance("C11.2.shift-type", "ordering classes", "src/spacial", "%d 32-bit shifts by a run-time amount" % k)
     res.rule("C11.3 sibling agreement: Morton and Hilbert list builders / coordinate clamp / parent-child algebra have equal behavioural atoms; per-cell and per-group builders share limits, wrap shifts, too-close test, child loop, level guards")
     sibling_builders(facts, res)
     res.rule("C11.4 bit provenance (abstract interpretation, Dim = 1..4): index bit k*Dim+Dim-1-d is a copy of bit k of coordinate d and nothing else, the decoder is its inverse, parent/child-code/child are the matching bit moves (Hilbert: around its two table conversions); hence parent coordinates = child coordinates >> 1 and the child code is the octant, for every input. Termination of the data-dependent loops and the Hilbert tables are not decided")
